@@ -446,7 +446,36 @@ class G:
         self.top.append('static int %s(int n, int (*cb)(int n, int m), int arr[n]);\nstatic int %s_cb(int a, int b) { return a * 10 + b; }\nstatic int %s(int n, int (*cb)(int, int), int *arr) { return cb(n, arr[0]) + n; }\n' % (h, h, h))
         return '\t{ int arr[2] = {%d, 2}; mix(%s(%d, %d)); mix(%s); mix(%s(2, %s_cb, arr)); }\n' % (r.randint(1, 9), f, r.randint(1, 50), r.randint(1, 50), g, h, h)
 
-    SNIPPETS = ['s_scopes', 's_func_scopes', 's_addr_const', 's_float_ops', 's_char_sign', 's_assign_chain', 's_vla', 's_vla_param', 's_ptrptr', 's_arith_runtime', 's_typedef_typeof', 's_alignas', 's_nested_calls', 's_init_exprs', 's_enum', 's_array_sum', 's_array2d', 's_struct_copy', 's_struct_call', 's_bitfield_ops', 's_union', 's_switch', 's_goto', 's_loops', 's_recursion', 's_fptr', 's_varargs', 's_strings',
+
+    def s_builtins(self):
+        r = self.r; tag = self.id('O')
+        self.top.append('struct %s { char a; int b; struct { short c; long d[3]; } in; double e; };\n' % tag)
+        s = '\t{ int x = %s; long y = %s; float inf = __builtin_inff(), nan = __builtin_nanf("");\n' % (self.small(0, 9), self.small(0, 99))
+        s += '\tmix(__builtin_offsetof(struct %s, b)); mix(__builtin_offsetof(struct %s, in.d[2])); mix(__builtin_offsetof(struct %s, e)); mix(__builtin_offsetof(struct %s, in.c));\n' % (tag, tag, tag, tag)
+        s += '\tmix(__builtin_types_compatible_p(int, typeof(x))); mix(__builtin_types_compatible_p(long, int)); mix(__builtin_types_compatible_p(typeof(&x), int *)); mix(__builtin_types_compatible_p(int[2], int[]));\n'
+        s += '\tmix(__builtin_constant_p(3)); mix(__builtin_expect(x > 2, 1)); mix(__builtin_expect(y, 5L) + 1); mix(inf > 1e38f); mix(nan != nan); mix(-inf < 0);\n'
+        s += '\t{ char *m = __builtin_alloca(%d); int i; for (i = 0; i < %d; i++) m[i] = (char)(i * 3); mix(m[%d]); { int *q = __builtin_alloca(sizeof(int) * (x + 1)); q[x] = 7; mix(q[x]); } }\n' % (r.randint(4, 40), 4, r.randint(0, 3))
+        s += '\tif (x < 0) __builtin_unreachable();\n'
+        return s + '\tmix(_Generic(x, int: 1, long: 2, default: 3)); mix(_Generic(y, int: 1, long: 2, default: 3)); mix(_Generic(inf, float: 4, double: 5)); mix(_Generic(&x, int *: 6, default: 7)); mix(_Generic("s", char *: 8, default: 9)); mix(_Generic((char)1, char: 10, int: 11)); mix(_Generic(x + y, long: 12, int: 13)); }\n'
+
+    def s_c23(self):
+        r = self.r; E = self.id('FE'); T = r.choice(['unsigned char', 'short', 'long', 'unsigned', 'signed char'])
+        v = {'unsigned char': 200, 'short': -300, 'long': 5000000000, 'unsigned': 4000000000, 'signed char': -100}[T]
+        self.top.append('enum %s : %s { %s_A = %s, %s_B };\n' % (E, T, E, v, E))
+        s = '\t{ enum %s e = %s_B; bool t = true, u = false; int *n = nullptr; int x = %s; typeof(x) y = x; typeof_unqual(const int) z = 3;\n' % (E, E, self.small(1, 50))
+        s += '\tstatic_assert(sizeof(enum %s) == sizeof(%s)); static_assert(true, "msg"); static_assert(alignof(long) == 8);\n' % (E, T)
+        s += '\tmix(e); mix(%s_A); mix(sizeof e); mix(e > 0); mix(t + u); mix(!t); mix(sizeof(bool)); mix(n == nullptr); mix(n == 0); n = &x; mix(n != nullptr); n = nullptr; mix(!n); mix(y); mix(z + 1);\n' % E
+        s += '\tmix(0b1011); mix(0B1 + 0b0); mix(alignof(short)); mix(sizeof(typeof(e))); [[maybe_unused]] int unused = 1; mix(unused);\n'
+        lb = self.id('lab')
+        s += '\tgoto %s; %s: ; int after = x + 1; mix(after);\n' % (lb, lb)
+        return s + '\t{ constexpr_free: ; } }\n'.replace('{ constexpr_free: ; } ', '')
+
+    def s_unnamed_params(self):
+        f = self.id('up')
+        self.top.append('static int %s(int, int b, long) { return b * 2; }\nstatic int %s_v(void) { return 4; }\nstatic int %s_k() { return 5; }\n' % (f, f, f))
+        return '\tmix(%s(1, %s, 3)); mix(%s_v()); mix(%s_k());\n' % (f, self.small(), f, f)
+
+    SNIPPETS = ['s_builtins', 's_c23', 's_unnamed_params', 's_scopes', 's_func_scopes', 's_addr_const', 's_float_ops', 's_char_sign', 's_assign_chain', 's_vla', 's_vla_param', 's_ptrptr', 's_arith_runtime', 's_typedef_typeof', 's_alignas', 's_nested_calls', 's_init_exprs', 's_enum', 's_array_sum', 's_array2d', 's_struct_copy', 's_struct_call', 's_bitfield_ops', 's_union', 's_switch', 's_goto', 's_loops', 's_recursion', 's_fptr', 's_varargs', 's_strings',
                 's_compound_literal', 's_once', 's_logic', 's_conversions', 's_static_local', 's_ptr_struct_array', 's_many_args', 's_ternary_types']
 
     def program(self, nblocks=12):
@@ -462,14 +491,14 @@ def run_one(seed):
     d = tempfile.mkdtemp(prefix='dt4-')
     try:
         cf = os.path.join(d, 'p.c'); open(cf, 'w').write(src)
-        r = subprocess.run(['gcc', '-w', '-O0'] + (['-funsigned-char'] if os.environ.get('CPROC_TARGET') in ('aarch64', 'riscv64') else []) + [ '-fsanitize=undefined,float-cast-overflow,address', '-fno-sanitize-recover=all', '-o', os.path.join(d, 'p'), cf], capture_output=True, text=True)
+        r = subprocess.run(['clang', '-std=gnu2x', '-include', os.path.join(os.path.dirname(os.path.abspath(__file__)), 'c23compat.h'), '-w', '-O0'] + (['-funsigned-char'] if os.environ.get('CPROC_TARGET') in ('aarch64', 'riscv64') else []) + ['-fsanitize=undefined,float-cast-overflow,address', '-fno-sanitize-recover=all', '-o', os.path.join(d, 'p'), cf], capture_output=True, text=True)
         if r.returncode: return seed, 'gen-error', r.stderr[:500], src
         try:
             n = subprocess.run([os.path.join(d, 'p')], capture_output=True, text=True, timeout=30)
         except subprocess.TimeoutExpired:
             return seed, 'gen-timeout', '', src
         if n.returncode or 'runtime error' in n.stderr or 'Sanitizer' in n.stderr: return seed, 'gen-ub', n.stderr[:400], src
-        r2 = subprocess.run(['gcc', '-w', '-O2'] + (['-funsigned-char'] if os.environ.get('CPROC_TARGET') in ('aarch64', 'riscv64') else []) + ['-o', os.path.join(d, 'p2'), cf], capture_output=True, text=True)
+        r2 = subprocess.run(['clang', '-std=gnu2x', '-include', os.path.join(os.path.dirname(os.path.abspath(__file__)), 'c23compat.h'), '-w', '-O2'] + (['-funsigned-char'] if os.environ.get('CPROC_TARGET') in ('aarch64', 'riscv64') else []) + ['-o', os.path.join(d, 'p2'), cf], capture_output=True, text=True)
         n2 = subprocess.run([os.path.join(d, 'p2')], capture_output=True, text=True, timeout=30)
         if n2.stdout != n.stdout: return seed, 'gen-unstable', 'gcc -O0 and -O2 disagree', src
         c = subprocess.run([CPROC] + (['-t', os.environ['CPROC_TARGET']] if os.environ.get('CPROC_TARGET') else []) + [cf], capture_output=True, text=True)
